@@ -9,6 +9,9 @@ skip_tests = "--skip-tests" in sys.argv
 src = f"/tmp/seeded-out/{name}"
 dst = f"/verif/seeded/{name}"
 os.makedirs(dst, exist_ok=True)
+prev_run = {}
+if os.path.exists(f"{dst}/meta.json"):
+    prev_run = json.load(open(f"{dst}/meta.json")).get("what_was_run", {})
 for f in os.listdir(src):
     if os.path.isfile(os.path.join(src, f)):
         shutil.copy(os.path.join(src, f), dst)
@@ -42,24 +45,25 @@ if res["applies"]:
     res["demo_without_patch_rc"] = rc_without
     res["demo_confirms"] = rc_with != 0 and rc_without == 0
     res["demo_tail_with"] = out_with[-300:]
-sh(f"git -C /repo worktree remove --force {wt}; rm -rf {wt}; git -C /repo worktree prune")
-# run the check against /repo with the patch applied
-assert sh("git -C /repo status --porcelain").stdout.strip() == "", "/repo not clean"
-r = sh(f"git -C /repo apply {dst}/patch.diff")
+# run the check against the patched scratch worktree in isolated mode (VERIF_REPO / VERIF_BUILD): /repo itself, the main build
+# directory and the evidence files of the real tree are not touched, so this can run next to other checks
+bdir = "/tmp/vbuild-seed"
 try:
     t0 = time.time()
-    r = sh(f"cd /verif && timeout 3000 ./check {pid} --tier quick", timeout=3100)
+    r = sh(f"cd /verif && VERIF_REPO={wt} VERIF_BUILD={bdir} timeout 3000 ./check {pid} --tier quick", timeout=3100)
     res["check_rc"] = r.returncode
     res["check_wall_s"] = round(time.time() - t0, 1)
     res["check_violation_lines"] = [l[:400] for l in r.stdout.splitlines() if l.startswith("VIOLATION")][:8]
-    res["check_tail"] = r.stdout.splitlines()[-1:] 
+    res["check_tail"] = r.stdout.splitlines()[-1:]
+    if r.returncode not in (0, 1):
+        print(r.stdout[-2000:], r.stderr[-2000:])
 finally:
-    sh("git -C /repo checkout -- . && git -C /repo clean -fdq")
+    sh(f"git -C /repo worktree remove --force {wt}; rm -rf {wt}; git -C /repo worktree prune")
 res["detected"] = res.get("check_rc") == 1
 if skip_tests:      # keep the suite result of the earlier full confirmation
     for k in ("pinned_passed", "pinned_failed", "pinned_ok"):
-        if k in meta.get("what_was_run", {}):
-            res[k] = meta["what_was_run"][k]
+        if k in prev_run:
+            res[k] = prev_run[k]
 meta["what_was_run"] = res
 json.dump(meta, open(f"{dst}/meta.json", "w"), indent=1)
 print(json.dumps(res, indent=1))
